@@ -11,6 +11,27 @@ fn main() {
   engine::install_panic_hook();
   let id = args[1].as_str();
   if id == "probe" { probe(); return; }
+  if id == "smoke-kat" {
+    // known answers for cfg/smoke (C20): what the specification's algorithm (specref, pinned to the official vectors)
+    // produces for the smoke program's fixed key / nonce / message / footer / assertion
+    const MSG: &str = "{\"data\":\"smoke \u{1F980} message crossing one block ........................................\"}";
+    const FOOT: &str = "{\"kid\":\"smoke\"}";
+    const ASSERT: &str = "{\"bound\":\"smoke\"}";
+    let key: [u8; 32] = hex::decode("707172737475767778797a7b7c7d7e7f808182838485868788898a8b8c8d8e8f").unwrap().try_into().unwrap();
+    let nonce = hex::decode("26f7553354482a1d91d4784627854b8da6b8042a7966523c2b404e8dbbe7f7f2").unwrap();
+    for v in 1u8..=4 {
+      let a: &[u8] = if v >= 3 { ASSERT.as_bytes() } else { b"" };
+      println!("const KAT_V{}_LOCAL: &str = \"{}\";", v, specref::local_encrypt(v, &key, &nonce, MSG.as_bytes(), FOOT.as_bytes(), a));
+    }
+    let ed = hex::decode("b4cbfb43df4ce210727d953e4a713307fa19bb7d9f85041438d9e11b942a37741eb9dbbbbc047c03fd70604e0071f0987e16b28b757225c11f00415d0e20b1a2").unwrap();
+    for v in [2u8, 4] {
+      let a: &[u8] = if v >= 3 { ASSERT.as_bytes() } else { b"" };
+      let t = specref::public_sign(v, &specref::RefSecret::Ed { seed: &ed[..32], public: &ed[32..] }, MSG.as_bytes(), FOOT.as_bytes(), a).unwrap();
+      println!("const KAT_V{}_PUBLIC: &str = \"{}\";", v, t);
+    }
+    return;
+  }
+  if id == "c10-fork" { std::process::exit(c10::fork_child_main(&args[2..])); }
   if id == "fuzz-seeds" {
     // pv fuzz-seeds <dir>: writes the seed corpora of the three libFuzzer targets
     let dir = std::path::PathBuf::from(&args[2]);
@@ -41,6 +62,7 @@ fn main() {
           }
           let tier = match args[2].as_str() { "quick" => Tier::Quick, "thorough" => Tier::Thorough, other => { eprintln!("unknown tier {other}"); std::process::exit(2) } };
           let ctx = Ctx::new($name, tier, seed);
+          ctx.saved_cases($m::subs());
           let meta = $m::run(&ctx);
           let out = engine::finish(ctx, meta);
           std::process::exit(out.exit_code);
